@@ -26,6 +26,12 @@ claim('C05', 'recording post-condition on analysis.lb / observation of Panel.lb 
       'checked by further real executions. Random symmetric pairs with null rows/cols, all KG sign structures, both solver switches, plus package matrices.',
       'scipy.linalg.eigh on the active sub-matrices as reference; tolerances scale with eps*||K||/||KG|| and eps*cond(K) (stated in the check)', '4/C05')
 
+claim('C06', 'recording post-condition on analysis.freq / observation of Panel.freq outputs, judged by a dense LAPACK reference, residuals and literal ordering',
+      'Every returned (frequency, mode) pair is judged by its backward error on K v = w^2 M v, positivity, zeros on massless amplitudes, literal ascending order '
+      '(sort=True), agreement of the lowest frequencies with the reference spectrum, sparse-vs-dense agreement and the 1/sqrt(s) mass-scaling law, on random SPD '
+      'pairs with constructed spectra (spread, clustered within 0.1 rad/s, omega~1, repeated) and on package matrices.',
+      'scipy.linalg.eigh reference; dense reduced_dof=True raises for every input and is counted as a rejection', '4/C06')
+
 ALL = ['C%02d' % i for i in range(1, 21)]
 PENDING_REASON = 'check not built yet in this round (runtime-monitoring plan in DESIGN.md section 4); will be claimed once its monitor runs silent on the unchanged tree'
 
